@@ -36,8 +36,7 @@ EXPLANATION = (
     "(R8) a parameter whose member is created on demand "
     "(`if( !p.f ) p.f = new ..`) is a reference or pointer, so that the aggregate created for the first referrer is the one "
     "the next referrer is added to. "
-    "(R1b) every lazyRefs member container changed during the per-attribute pass is emptied in checkAnInvAttr before the calls that change it. (R4b) every instance that enters the cache is queued for inverse resolution under the same conditions, and the queue is drained (entry taken, removed, resolved) under `no instance is half-read`, with the depth counter bracketing exactly the attribute reads. (R8) a parameter whose member is created on demand is a reference or pointer. (R9) clients of the recursive super/subtype iterators take elements either through current() or through the value of next(), never both. Not decided: that the resulting sets equal the true referrers for every population (needs the run-time population), "
-    "re-entrant loads of an instance that is still being read (reference cycles create a second object).")
+    "(R1b) every lazyRefs member container changed during the per-attribute pass is emptied in checkAnInvAttr before the calls that change it. (R4b) every instance that enters the cache is queued for inverse resolution under the same conditions, and the queue is drained (entry taken, removed, resolved) under `no instance is half-read`, with the depth counter bracketing exactly the attribute reads. (R8) a parameter whose member is created on demand is a reference or pointer. (R9) clients of the recursive super/subtype iterators take elements either through current() or through the value of next(), never both. Not decided: that the resulting sets equal the true referrers for every population (needs the run-time population).")
 
 
 def lazyfn(prog, name):
